@@ -34,6 +34,10 @@ CHECKS = {
          "Exploration: 5k (quick) / 100k (thorough) documents rendered from random syntax trees with hostile string values, directives in every position (incl. variable definitions), fragment variables and comments are parsed, formatted under every combination of comments x compacted x 5 indents (builtin / no-description flags rotated), re-parsed and compared through an independent AST->model adapter; the second format must reproduce the first byte for byte.",
          "Trusts the model adapter and diff; comments and positions are not compared; relative order of operations vs fragments not compared (formatter emits operations first by design). Two defects found by this check were repaired (fix: commits fc85355, 36779a6).",
          "DESIGN.md §4 C12"),
+ "C13": ("round-trip monitor: FormatSchemaDocument vs ParseSchema through the type-system model (80 configurations) and FormatSchema vs LoadSchema through a canonical loaded-schema dump (40 configurations), plus text fixpoint",
+         "Exploration: 1.3k (quick) / 27k (thorough) type-system documents (random trees and valid generated schemas with hostile descriptions, extensions, schema directives, repeatable directives, described arguments) x 80 configurations, and 0.7k / 13k valid generated schemas (custom roots, default-root-named non-root types, extension-only types) loaded, formatted x 40 configurations, reloaded and compared canonically (types, fields, arguments, defaults, directives, roots, relations, descriptions); the second format must reproduce the first.",
+         "FormatSchema with WithBuiltin is judged for totality only (its output repeats the prelude and cannot be loaded by design). Two defects repaired (9f2bb02, 13d6633); five recorded findings, three of them pinned by the repository's golden files.",
+         "DESIGN.md §4 C13"),
  "C16": ("limit-exactness oracle against an independent reference token count, every limit 0..T+2; hook counters (lexer reads, last scanned byte) for the work bound; lowered stack ceiling for recursion depth",
          "Exploration: ~8k (quick) / 60k (thorough) documents of both grammars (valid and single-token-mutated, comments everywhere) are parsed under every limit from 0 to T+2 through ParseQueryWithTokenLimit, ParseSchemaWithLimit and ParseSchemasWithLimit (per-source limits); success must be exact (L=0 or L>=T reproduces the unlimited tree by reflect.DeepEqual; 0<L<T fails) and monotone, and every limit failure must have read at most L+2 tokens and scanned no byte beyond reference token L+2. 1-8 MiB floods (nesting, tokens, comments) under limits 1..15000 run with a 32 MiB stack ceiling so unbounded recursion is a fatal exit.",
          "T comes from the reference lexer (C03); when the unlimited parse fails only failure (not the error text) is required of limits >= T, because the property asks no more. Work is measured in hook counters, not time.",
